@@ -317,8 +317,17 @@ class Parser:
             path = [v]
             while self.at('::'):
                 self.eat('::')
-                if self.at('<'):
-                    raise Untranslatable('generic path')
+                if self.at('<'):                 # turbofish: `Boolean::<Fq>::TRUE` — the type arguments carry no value
+                    depth = 0
+                    while True:
+                        v2 = self.eat()[1]
+                        depth += v2 == '<'
+                        depth -= v2 == '>'
+                        if v2 == '>>':
+                            depth -= 2
+                        if depth <= 0:
+                            break
+                    continue
                 path.append(self.eat()[1])
             p = '::'.join(path)
             if self.at('{') and not nostruct and path[-1][:1].isupper() and self.peek(1)[0] == 'id' and self.at(':', 2):
@@ -881,6 +890,8 @@ class GSym(Sym):
                 if name == 'conditional_enforce_equal' and ts == ['fq', 'bool']:
                     self.need('(!%s || %s == %s)' % (av[1][0], a, av[0][0]))
                     return ('()', 'unit')
+                if name == 'to_bits_le' and not args:
+                    return (a, 'bits')        # canonical little-endian bits (ark-r1cs-std enforces value < modulus)
                 if name == 'value' and not args:
                     return (a, 'fqvalue')
                 if name == 'is_constant' and not args:
@@ -934,10 +945,17 @@ class GSym(Sym):
                 return av[0]
             if f in ('Fq::from',) and len(e[2]) == 1 and e[2][0][0] == 'num':
                 return (str(e[2][0][1]), 'fq')
+            hp = self.helper(f.split('::')[-1], len(av))
+            if hp is not None and self.depth <= 6:
+                self.depth += 1
+                try:
+                    return self.ev_block(hp[1], dict(zip(hp[0], av)))
+                finally:
+                    self.depth -= 1
             raise Untranslatable('gadget call of %s%s' % (f, ts))
         if k == 'path':
             p = e[1]
-            if p in ('Boolean::TRUE', 'Boolean::FALSE'):
+            if p in ('Boolean::TRUE', 'Boolean::FALSE', 'Boolean::<Fq>::TRUE', 'Boolean::<Fq>::FALSE'):
                 return ('true' if p.endswith('TRUE') else 'false', 'bool')
             return super().ev(e, env)
         if k == 'field':
@@ -947,6 +965,11 @@ class GSym(Sym):
             if t == 'pair' and e[2] in ('x', 'y'):
                 return (a['xy'.index(e[2])], 'fq')
             raise Untranslatable('gadget field .%s of %s' % (e[2], t))
+        if k == 'index':
+            a, t = self.ev(e[1], env)
+            if t == 'bits' and e[2] == ('num', 0):
+                return ('(%s %% 2 == 1)' % a, 'bool')
+            raise Untranslatable('gadget index of %s' % t)
         if k == 'struct':
             if e[1] in ('ElementVar', 'Self') and len(e[2]) == 1 and e[2][0][0] == 'inner':
                 a, t = self.ev(e[2][0][1], env)
@@ -956,6 +979,28 @@ class GSym(Sym):
         if k == 'tuple':
             return ([self.ev(x, env) for x in e[1]], 'tuple')
         return super().ev(e, env)
+
+    def ev_block(self, stmts, env):
+        """a helper body / block in a gadget: lets, constraint statements, a tail value; no control flow"""
+        env = dict(env)
+        for i, st in enumerate(stmts):
+            if st[0] == 'macro':
+                continue
+            if st[0] == 'cfgstmt' and 'decaf377_verif' in st[1]:
+                st = st[2]
+            if st[0] == 'let' and st[2] is not None:
+                self.bind_pat(st[1], self.ev(st[2], env), env)
+                continue
+            if st[0] == 'assign':
+                env = self.run_assigns([st], env)
+                continue
+            if st[0] == 'expr' and st[2]:
+                self.effect(st[1], env)
+                continue
+            if st[0] in ('expr', 'return') and i == len(stmts) - 1:
+                return self.ev(st[1], env)
+            raise Untranslatable('statement %s in a gadget helper' % st[0])
+        return ('()', 'unit')
 
     pending = None
 
@@ -1065,6 +1110,12 @@ TARGETS = [
     dict(name='r1cs_is_eq', file='src/ark_curve/r1cs/inner.rs', impl=r'impl\s+EqGadget\s*<\s*Fq\s*>\s*for\s+ElementVar\s*\{', fn='is_eq', gadget=True, nosat=True, mode='pure', ret='bool',
          params='(x1 y1 x2 y2 : Nat)', env={'self': (('x1', 'y1'), 'pair'), 'other': (('x2', 'y2'), 'pair')}, new_order=None,
          fallback='R1cs.isEq (x1, y1) (x2, y2)', lean_ret='Bool'),
+    dict(name='r1cs_is_nonnegative', file='src/ark_curve/r1cs/fqvar_ext.rs', impl=r'impl\s+FqVarExtension\s+for\s+FqVar\s*\{', fn='is_nonnegative', gadget=True, nosat=True, mode='pure', ret='bool',
+         params='(x : Nat)', env={'self': ('x', 'fq')}, new_order=None, fallback='!isNeg x', lean_ret='Bool'),
+    dict(name='r1cs_is_negative', file='src/ark_curve/r1cs/fqvar_ext.rs', impl=r'impl\s+FqVarExtension\s+for\s+FqVar\s*\{', fn='is_negative', gadget=True, nosat=True, mode='pure', ret='bool',
+         params='(x : Nat)', env={'self': ('x', 'fq')}, new_order=None, fallback='isNeg x', lean_ret='Bool'),
+    dict(name='r1cs_abs', file='src/ark_curve/r1cs/fqvar_ext.rs', impl=r'impl\s+FqVarExtension\s+for\s+FqVar\s*\{', fn='abs', gadget=True, nosat=True, mode='pure', ret='fq',
+         params='(x : Nat)', env={'self': ('x', 'fq')}, new_order=None, fallback='fabs x', lean_ret='Nat'),
     dict(name='r1cs_isqrt', file='src/ark_curve/r1cs/fqvar_ext.rs', impl=r'impl\s+FqVarExtension\s+for\s+FqVar\s*\{', fn='isqrt', gadget=True, mode='pure', ret='tuple',
          params='(isConst : Bool) (x : Nat) (h : R1cs.Hint)', env={'self': ('x', 'fq')}, new_order=None,
          fallback='if isConst then (true, h.getD (R1cs.honest x)) else R1cs.isqrt x h', lean_ret='Bool × Bool × Nat'),
